@@ -1,6 +1,28 @@
-"""C19  Concurrent transactions on different documents conflict or both take effect."""
+"""C19  Concurrent transactions on different documents conflict or both take effect.
+
+Three comparisons per case (two real connections on a conflict-resolving FileStorage):
+  * real stored catalog (third connection) = real in-memory catalog that ran the committed transactions
+    serially (complete observation + query battery)                      I vs S  -> VIOLATION
+  * the object-level Lean model (`HypatiaModel/ConcurrencyIndex.lean`: field, keyword and facet index as
+    heaps of persistent objects with read/write footprints and BTrees' merge rules) replays the same
+    operations in three transactions and merges: real `ok, ok` => the model's merge succeeds (a model
+    conflict the real BTrees did not see means the model's footprint is wrong -> drift; a real conflict the
+    model does not see is admissible: real BTrees refuse in more cases) and the merged model heap equals
+    the stored catalog in the model's vocabulary (reverse map, not-indexed, counter, every posting)
+  * the abstract commit log (which operations must be visible for which outcome)
+
+Sanity check by mutation (scratch copies, each reported VIOLATION with a concrete failing input):
+  M1  revert of 54fed54 (D20: `_insert_forward` does not empty the Set it replaces)            caught
+  M2  FieldIndex `_num_docs` = a Length subclass whose `_p_resolveConflict` keeps the new state    caught
+  M6  FieldIndex.unindex_doc replaces the posting by a copy without the docid (copy-on-write)      caught
+  M12 KeywordIndex.unindex_doc converts a TreeSet below tree_threshold back to a Set (no clear)    caught
+  M19 FacetIndex.index_doc stores a copy of the posting on every insert                           caught
+M1, M12 need a threshold crossing on one side and a non-crossing change of the same posting on the other,
+with the contended docid not at the head of its bucket (padded-directed generator mode).
+"""
 import importlib
 import os
+import re
 import shutil
 
 from lib import core
@@ -24,16 +46,29 @@ RULE = ("a committed base state (0-12 operations on a catalog with field, keywor
         "crossing representation thresholds); both commit orders; each commit is `ok` or ConflictError (the "
         "loser aborts); a third connection with an empty cache is then compared - complete observable state "
         "and query battery - with an in-memory catalog that ran the base and then the committed transactions "
-        "one after the other. non-trivial = both transactions change something and at least one posting / word "
-        "is shared between them")
-LEVEL_TEXT = ("Lean 4: object-level model of optimistic commits with BTrees' three-way merges (Length: com + new "
-              "- old; buckets/sets: per-key merge that fails when both sides changed one key); theorem: when "
-              "every doubly-written object merges and the second transaction read no key the first wrote, the "
-              "merged heap equals serial execution. The runtime half (MVCC, real _p_resolveConflict, storage) is "
-              "checked on a real FileStorage with two connections against serial replay")
+        "one after the other; the same operations are replayed on the object-level Lean model (field, keyword, "
+        "facet index as heaps of persistent objects) whose merge must succeed whenever both real commits did, "
+        "with the same stored state. non-trivial = both transactions change something and at least one posting / "
+        "word is shared between them")
+LEVEL_TEXT = ("Lean 4: (1) generic optimistic commit with three-way merges: merged = serial when every doubly "
+              "written position merges and the second transaction read nothing the first wrote; (2) per-index "
+              "object layer: field, keyword and facet index as heaps of persistent objects (forward tree key -> "
+              "reference, posting objects with their own identity incl. the Set -> TreeSet replacement, reverse "
+              "tree, not-indexed set, Length) with read/write footprints and BTrees' rules (per-key merge, "
+              "conflict when both changed a key, when the committed or new state is empty, when the merged one "
+              "would be). Field index, for all bases satisfying the C01 invariant and all operation lists on "
+              "disjoint docids: the second commit conflicts or the merged heap satisfies the C01 invariant for "
+              "the serial table (c19_field_conflict_or_serial; queries, counts, statistics = serial). Keyword "
+              "index: D20 as theorems - unrepaired replacement merges and loses the update (witness), repaired "
+              "code: replacing a posting object the other side wrote always conflicts (all bases, thresholds, "
+              "operation lists). Runtime half: two real connections vs serial replay, and real ok+ok => model "
+              "merge ok with the same stored state")
 LEVEL_NOTE = ("partial: thread scheduling, MVCC, storage and the real conflict-resolution code are ZODB/BTrees' "
-              "(trusted, sampled); which objects each hypatia operation reads and writes is established by the "
-              "runs, not by proof")
+              "(trusted, sampled; the model's merge rules are a subset of BTrees' refusals, checked in the "
+              "direction real success => model success); the full conflict-or-serial theorem is proved for the "
+              "field index, for the keyword index only the replacement/orphan-merge part "
+              "(c19_keyword_conflict_or_serial_partial; full statement kept in Properties/C19Index.lean); "
+              "facet and text indexes: object model (facet) / runs only (text)")
 TECHNIQUE = "Lean 4 proof about the three-way-merge abstraction + two-connection differential run on a real FileStorage"
 
 c09 = importlib.import_module("props.c09")
@@ -286,10 +321,12 @@ def impl_run(hyp, case):
     return out
 
 
+_LAST = {}      # the object-level model's verdict on the case evaluated last (read by `features`)
+
+
 def objobs(cat, ids):
     """the object-level model's vocabulary, read through the public API: reverse map, not-indexed set, the
     counter where a method reports it, and every forward key with its posting"""
-    import re
     from lib.core import idset
     out = []
     if "i0" in cat:
@@ -330,6 +367,9 @@ def post_model(hyp, case, mouts, iouts=None):
             outcome[c[1]] = o
     key = "%s,%s:" % (outcome.get("a", "?"), outcome.get("b", "?"))
     order = [c[1] for c in case["cmds"] if c[0] == "commit"]
+    _LAST["model2"] = "conflict" if any(m.startswith("conflict ") for m in mouts) else "ok"
+    _LAST["objects"] = sorted({"%s:%s" % x for m in mouts if m.startswith("conflict ")
+                               for x in re.findall(r"(i\d):(fwd|rev|ni|len|post)", m.split(" ## ")[0])})
     res = []
     for m in mouts:
         if m.startswith("eff "):
@@ -383,6 +423,10 @@ def features(case, outs):
     f.append("present:%s outcomes:%s" % ("+".join(case["cfg"][2][2:]), "+".join(res)))
     f.append("outcomes:" + "+".join(res))
     f.append("mode:%s outcomes:%s" % (cfgval(case, "mode", "small"), "+".join(res)))
+    if len(res) == 2 and _LAST:
+        f.append("second commit real:%s object-model:%s" % (res[1], _LAST.get("model2")))
+        for ob in _LAST.get("objects", []):
+            f.append("object-model refuses " + ob)
     for c, o in zip(case["cmds"], outs):
         if c[0] in ("a", "b"):
             f.append("txn-op:" + c[2])
